@@ -1056,6 +1056,63 @@ func genSyncTimeout(r *rand.Rand, i int) *launchCase {
 	return lc
 }
 
+// declared: three to five healthy plugins with distinct indices, one or two of which register under an identity of
+// their own (probe.RegAs): an index that would sort elsewhere, an empty name, a malformed index, another name.  A
+// launched plugin's identity is its file name whatever it declares: all are kept, invoked at their file-name
+// position, running after Start and gone after Stop.
+func genDeclared(r *rand.Rand, i int) *launchCase {
+	lc := newCase("declared", i, r)
+	ns := nameSet{}
+	k := 3 + r.Intn(3)
+	idxs := r.Perm(98)[:k] // 1..98 below: room for a declared index before and after every file index
+	sort.Ints(idxs)
+	for n := range idxs {
+		idxs[n]++
+	}
+	variant := func(pos int, v int) string {
+		switch v {
+		case 0: // first file index, declares one behind the last
+			return fmt.Sprintf("%02d-%s.i%02d", idxs[pos], probe.RegAs, idxs[k-1]+1)
+		case 1: // empty name
+			return fmt.Sprintf("%02d-%s.n", idxs[pos], probe.RegAs)
+		case 2: // malformed index
+			return fmt.Sprintf("%02d-%s.i%s", idxs[pos], probe.RegAs, []string{"9", "ab", "", "100", "1x", "-1"}[r.Intn(6)])
+		}
+		// last file index, declares one before the first, and another name
+		return fmt.Sprintf("%02d-%s.i%02d.nelse", idxs[pos], probe.RegAs, idxs[0]-1)
+	}
+	special := map[int]int{}
+	switch v := i % 4; v {
+	case 0:
+		special[0] = 0
+	case 3:
+		special[k-1] = 3
+	default:
+		special[r.Intn(k)] = v
+	}
+	if r.Intn(2) == 0 { // a second one, any variant that fits its position
+		pos := r.Intn(k)
+		if _, taken := special[pos]; !taken {
+			v := 1 + r.Intn(2)
+			if pos == 0 && r.Intn(2) == 0 {
+				v = 0
+			}
+			special[pos] = v
+		}
+	}
+	for n, x := range idxs {
+		x := x
+		if v, ok := special[n]; ok {
+			lc.add(variant(n, v), "file", 0o755)
+			ns[lc.Entries[len(lc.Entries)-1].Name] = true
+			continue
+		}
+		lc.add(ns.fresh(r, func() string { return fmt.Sprintf("%02d-%s", x, goodBases[r.Intn(len(goodBases))]) }), "file", execModes[r.Intn(len(execModes))])
+	}
+	shuffleEntries(r, lc)
+	return lc
+}
+
 // ---------------------------------------------------------------- corpus
 
 // loadCorpus reads <verif>/corpus/C18/*.json: directory contents replayed before the generated streams.
@@ -1143,6 +1200,7 @@ func driveLaunch(c *hx.Ctx) error {
 		{"stopsilent", c.Pick(8, 120), genSilent},
 		{"startfail", c.Pick(6, 90), genStartFail},
 		{"synctimeout", c.Pick(2, 24), genSyncTimeout},
+		{"declared", c.Pick(4, 80), genDeclared},
 	}
 	corpus, err := loadCorpus()
 	if err != nil {
@@ -1209,6 +1267,19 @@ func driveLaunch(c *hx.Ctx) error {
 					}
 				}
 			}
+			for _, po := range lc.Obs {
+				// launched plugins declaring an identity of their own when they register
+				if name, idx, setName, setIdx, ok := probe.Declared(po.File); ok {
+					switch {
+					case setName && name == "":
+						c.Count("c18.declared.empty_name", 1)
+					case setIdx && !checkIndex(idx):
+						c.Count("c18.declared.malformed_index", 1)
+					case setIdx && idx != po.File[:2]:
+						c.Count("c18.declared.other_index", 1)
+					}
+				}
+			}
 			for _, d := range lc.Dropins {
 				if d.Kind == "content" && d.Content == "" {
 					c.Count("c18.dropin.empty", 1)
@@ -1258,11 +1329,15 @@ func driveLaunch(c *hx.Ctx) error {
 		c.Stats.Distribution["c18.sync_timeout.slow"] < 12 {
 		c.HarnessError("synchronisation time-out cases missed their target shape: %v", c.Stats.Distribution)
 	}
+	if c.Stats.Distribution["c18.declared.empty_name"] == 0 || c.Stats.Distribution["c18.declared.malformed_index"] == 0 ||
+		c.Stats.Distribution["c18.declared.other_index"] == 0 {
+		c.HarnessError("declared-identity cases missed their target shape: %v", c.Stats.Distribution)
+	}
 	if n := c.Stats.Distribution["c18.silent_stop.cases"]; n == 0 || 2*c.Stats.Distribution["c18.silent_stop.noticed_before_stop"] < n {
 		c.HarnessError("silent-stop cases missed their target shape (Stop after the runtime has noticed a lost connection, no event in between): %v", c.Stats.Distribution)
 	}
 	c.Stats.Extra = map[string]interface{}{"probe_build_ms": buildMs, "cases": total, "cases_failing_go_oracle": failing,
 		"observed_only": "launch-once, environment, descriptor inheritance (/proc/self/fd of the child), kill and reap (/proc/<pid>/stat) are operating-system behaviour observed on the implementation; they are not proved"}
-	c.Stats.Rule = "generated plugin directories (probe copies with every execute-bit pattern, non-executables, sub-directories, symbolic links, non-binaries, malformed names), drop-in directories (all 16 state pairs of idx-name.conf x name.conf over missing / content / unreadable / present but empty), failure modes chosen by the probe's file name (exits at once, never registers, closes its socket, Configure fails, Synchronize fails, exits later, closes its connection later and keeps running) started by a real Adaptation; after the later deaths either three more events are sent (the dead plugins are dropped, killed and reaped) or - stream stopsilent and two corpus cases - NO event or request: the driver waits until the runtime has closed its end of the lost connections (its own descriptor table) and calls Stop; stream synctimeout and two corpus cases: with a 3 s request time-out one plugin never answers Synchronize (it is dropped and killed) while healthy plugins before and after it in index order, and twelve plugins that each answer after 300 ms, must all be kept and invoked in order; stream startfail and two corpus cases: the runtime's SyncFn returns an error before or after calling the NRI callback, Start must fail and every process launched by the attempt must be gone when it returns; after Stop every launched pid must be gone from the process table (no live process, no zombie child); a case is non-trivial when at least one process was launched or Start failed on a malformed name / unreadable drop-in"
+	c.Stats.Rule = "generated plugin directories (probe copies with every execute-bit pattern, non-executables, sub-directories, symbolic links, non-binaries, malformed names), drop-in directories (all 16 state pairs of idx-name.conf x name.conf over missing / content / unreadable / present but empty), failure modes chosen by the probe's file name (exits at once, never registers, closes its socket, Configure fails, Synchronize fails, exits later, closes its connection later and keeps running) started by a real Adaptation; after the later deaths either three more events are sent (the dead plugins are dropped, killed and reaped) or - stream stopsilent and two corpus cases - NO event or request: the driver waits until the runtime has closed its end of the lost connections (its own descriptor table) and calls Stop; stream declared and one corpus case: healthy plugins whose RegisterPlugin request declares an identity of their own (an index that would sort elsewhere, an empty name, a malformed index, another name) next to ordinary ones - all must be kept, invoked at their file-name position, running after Start, gone after Stop; stream synctimeout and two corpus cases: with a 3 s request time-out one plugin never answers Synchronize (it is dropped and killed) while healthy plugins before and after it in index order, and twelve plugins that each answer after 300 ms, must all be kept and invoked in order; stream startfail and two corpus cases: the runtime's SyncFn returns an error before or after calling the NRI callback, Start must fail and every process launched by the attempt must be gone when it returns; after Stop every launched pid must be gone from the process table (no live process, no zombie child); a case is non-trivial when at least one process was launched or Start failed on a malformed name / unreadable drop-in"
 	return nil
 }
